@@ -435,3 +435,33 @@ Definition mdia_children (t : trak) : list str :=
 
 Definition mhdr_name (h : mhdr) : str :=
   match h with Vmhd => BS "vmhd" | Smhd => BS "smhd" | Sthd => BS "sthd" | Nmhd => BS "nmhd" end.
+
+(* ------------------------------------------------------------------ elng payload (elng.go) *)
+(* EncodeSW after the box header: version+flags (missingFullBox is false for CreateElng), language, 0 *)
+Definition elng_payload (lang : str) : str := [0; 0; 0; 0] ++ lang ++ [0].
+
+(* FixedSliceReader.ReadZeroTerminatedString(maxLen) on the remaining bytes l: the string before the first
+   zero among the first maxLen bytes; None = "did not find terminating zero" (accumulated error) *)
+Fixpoint read_zstr (max : nat) (l : str) : option str :=
+  match max, l with
+  | O, _ => None
+  | S _, [] => None
+  | S m, c :: r => if c =? 0 then Some [] else match read_zstr m r with Some s => Some (c :: s) | None => None end
+  end.
+
+(* DecodeElngSR on a payload: (missingFullBox, language).  With fewer than 7 payload bytes the box is taken
+   for the old layout without version/flags and the reader's error is not looked at (string "" on error). *)
+Definition elng_decode (pl : str) : res (bool * str) :=
+  if Nat.ltb (length pl) 7 then
+    Ok (true, match read_zstr (length pl) pl with Some s => s | None => [] end)
+  else
+    match pl with
+    | a :: b :: c :: d :: rest =>
+        if (a =? 0) && (b =? 0) && (c =? 0) && (d =? 0) then
+          match read_zstr (length pl - 4) rest with
+          | Some s => Ok (false, s)
+          | None => Err
+          end
+        else Err
+    | _ => Err
+    end.
